@@ -456,4 +456,9 @@ def R6_cross_checks(run):
     C13.R3_byte_offset(RuleProxy(run, 'R6'))
 
 
-RULES = [R1_layouts, R2_discriminators, R3_accessors, R4_routing, R4b_entry_forwarding, R5_ported_pairs, R6_cross_checks]
+def R7_cpi_wire_format(run):
+    from rules import xfer
+    xfer.R_cpi_builders(run, "R7")
+
+
+RULES = [R1_layouts, R2_discriminators, R3_accessors, R4_routing, R4b_entry_forwarding, R5_ported_pairs, R6_cross_checks, R7_cpi_wire_format]
